@@ -95,6 +95,17 @@ ThmZones == y = 1 =>
         /\ (CalNumPlain(s) => CalValid(CalTNumber, s))
         /\ (CalNumHopeless(s) => ~CalValid(CalTNumber, s))
         /\ ~(CalNumPlain(s) /\ CalNumHopeless(s))
+\* the sign is orthogonal to everything else in a number: an unsigned string is a valid number exactly when "-" followed by it is, and the
+\* magnitudes are equal (so a reading that accepts ".5" accepts "-.5", one that rejects "5." rejects "-5.": the law holds in EVERY reading
+\* of the undecided zone and is gated on the code by the sign-law part of checks/c18.py)
+SignAlphabet == {48, 53, 46, 101, 45, 43}
+RECURSIVE StrsUpTo(_)
+StrsUpTo(k) == IF k = 0 THEN {<<>>} ELSE LET S == StrsUpTo(k - 1) IN S \cup {Append(x, c) : x \in S, c \in SignAlphabet}
+ThmSign == y = 1 =>
+    \A s \in {x \in StrsUpTo(4) : x = <<>> \/ x[1] \notin {45, 43}} :
+        LET a == CalParseNum(s)  m == CalParseNum(<<45>> \o s) IN
+        /\ a.ok = m.ok
+        /\ a.ok => (a.ds = m.ds /\ a.e = m.e /\ ~a.neg /\ (m.neg <=> Len(a.ds) > 0))
 \* wrapped time ranges: with min 23:00 and max 01:00 exactly the times strictly between max and min are out
 T(h, mi) == CalParseTime(TimeStr(h, mi))
 ThmWrap == y = 1 =>
